@@ -37,7 +37,7 @@ type rowT struct {
 }
 
 type stepT struct {
-	K    string `json:"k"`              // sel | sfu | msel | ins | upd | del | upd2 | insfrom | commit | rollback | b | hold | release
+	K    string `json:"k"`              // sel | sfu | msel | wsel | ins | upd | del | repl | upd2 | insfrom | insself | updsub | delsub | commit | rollback | b | hold | release
 	T    int    `json:"t"`              // table index (0: t1, 1: t2)
 	Src  int    `json:"src,omitempty"`  // insfrom: source table
 	Form int    `json:"form,omitempty"` // spelling of the table reference (see tableRef)
@@ -47,12 +47,18 @@ type stepT struct {
 	J    string `json:"j,omitempty"`    // msel: comma | cross | inner | full | union | notin (T is the first table, the other one the second)
 	FU   bool   `json:"fu,omitempty"`   // msel: FOR UPDATE
 	ID2  int    `json:"id2,omitempty"`  // upd2: id addressed in the second table
+	W    string `json:"w,omitempty"`    // wsel: subq | cte | tview | agg | udf | self (how the single table is reached)
+	Neg  bool   `json:"neg,omitempty"`  // updsub / delsub: NOT IN instead of IN
+	Wrap string `json:"wrap,omitempty"` // procedure_process: the statement stands inside IF .. END IF / WHILE .. END WHILE
 }
 
 type histCase struct {
 	Tables [][]rowT `json:"tables"`
 	Steps  []stepT  `json:"steps"`
 	BProc  bool     `json:"b_proc,omitempty"` // B runs as real csvq processes
+	Fmt    string   `json:"fmt,omitempty"`    // file format of the tables: "" (csv) | tsv | ltsv | json | jsonl
+	CPU    int      `json:"cpu,omitempty"`    // A's @@CPU (0: 1)
+	Pad    int      `json:"pad,omitempty"`    // further rows (1000*(table+1)+k, 'p<k>') at the end of every table: sizes beyond the goroutine split
 }
 
 // ---------------------------------------------------------------------
@@ -76,6 +82,23 @@ type model struct {
 	F  [][]mrow  // contents of the files
 	C  []*cacheT // A's cache per table
 	H2 []*cacheT // the copies a long-lived other transaction B2 holds for update (nil: not held by B2)
+}
+
+// padRows: the rows a case with Pad > 0 has at the end of table t.
+func padRows(t, pad int) []rowT {
+	var out []rowT
+	for k := 0; k < pad; k++ {
+		out = append(out, rowT{ID: 1000*(t+1) + k, V: fmt.Sprintf("p%d", k)})
+	}
+	return out
+}
+
+func newModelCase(c histCase) *model {
+	tables := make([][]rowT, len(c.Tables))
+	for t, rows := range c.Tables {
+		tables[t] = append(append([]rowT{}, rows...), padRows(t, c.Pad)...)
+	}
+	return newModel(tables)
 }
 
 func newModel(tables [][]rowT) *model {
@@ -219,6 +242,12 @@ func accesses(s stepT) []acc {
 		return []acc{{s.T, true}, {1 - s.T, true}}
 	case "insfrom":
 		return []acc{{s.T, true}, {s.Src, false}}
+	case "wsel":
+		return []acc{{s.T, s.FU}}
+	case "repl", "insself":
+		return []acc{{s.T, true}}
+	case "updsub", "delsub":
+		return []acc{{s.T, true}, {1 - s.T, false}}
 	}
 	return nil
 }
@@ -373,6 +402,26 @@ func multiExpected(j string, l, r []mrow) (rows []string, ordered bool) {
 	return rows, false
 }
 
+// mselSQL is the two-table read without its FOR UPDATE / semicolon ending ("" for an unknown form).
+func mselSQL(j, lref, rref string) string {
+	const cols = "SELECT a.id AS aid, a.v AS av, b.id AS bid, b.v AS bv"
+	switch j {
+	case "comma":
+		return fmt.Sprintf(cols+" FROM %s a, %s b", lref, rref)
+	case "cross":
+		return fmt.Sprintf(cols+" FROM %s a CROSS JOIN %s b", lref, rref)
+	case "inner":
+		return fmt.Sprintf(cols+" FROM %s a JOIN %s b ON a.id = b.id", lref, rref)
+	case "full":
+		return fmt.Sprintf(cols+" FROM %s a FULL OUTER JOIN %s b ON a.id = b.id", lref, rref)
+	case "union":
+		return fmt.Sprintf("SELECT id, v FROM %s UNION ALL SELECT id, v FROM %s", lref, rref)
+	case "notin":
+		return fmt.Sprintf("SELECT id, v FROM %s WHERE id NOT IN (SELECT id FROM %s)", lref, rref)
+	}
+	return ""
+}
+
 // rowsAfter: what the table's copy will be after a plain (fu false) or for-update access.
 func (m *model) rowsAfter(t int, fu bool) []mrow {
 	if m.C[t] != nil && (m.C[t].fu || !fu) {
@@ -416,7 +465,41 @@ func countID(rows []mrow, id int) int {
 // ---------------------------------------------------------------------
 // generator (steered by the same pure model so that the interesting rules are frequent)
 
-var kinds = []string{"sel", "sfu", "dml", "insfrom", "commit", "rollback", "b", "msel", "upd2", "hold", "release"}
+var kinds = []string{"sel", "sfu", "dml", "insfrom", "commit", "rollback", "b", "msel", "upd2", "hold", "release", "wsel", "repl", "insself", "updsub", "delsub"}
+
+// how a wrapped read reaches its single table: FROM-subquery, common table expression, temporary view declared from
+// the table, aggregate over the table, user-defined function that reads the table, self join of two spellings
+var wrapForms = []string{"subq", "cte", "tview", "agg", "udf", "self"}
+
+var formatsAll = []string{"", "tsv", "ltsv", "json", "jsonl"}
+
+// genOpt selects the generator variant.
+type genOpt struct {
+	bproc    bool // B steps run as real processes
+	aimShape bool // make "A's update access to a table it has cached read-only while B2 holds it" frequent
+	aproc    bool // transaction A will run as one csvq process: no long-lived second transaction, no no_header spellings, statements wrapped in control flow
+	forms    bool // further statement forms (wrapped reads, REPLACE, DML with subqueries, INSERT..SELECT from the target), file formats, tables beyond the goroutine split
+}
+
+// subsetEdit: UPDATE/DELETE ... WHERE id [NOT] IN (SELECT id FROM other)
+func subsetEdit(rows, other []mrow, del, neg bool, v string) []mrow {
+	ids := map[int]bool{}
+	for _, r := range other {
+		ids[idOf(r)] = true
+	}
+	out := make([]mrow, 0, len(rows))
+	for _, r := range rows {
+		hit := ids[idOf(r)] != neg
+		switch {
+		case hit && del:
+			continue
+		case hit:
+			r.v, r.null = v, false
+		}
+		out = append(out, r)
+	}
+	return out
+}
 
 // A failed update access (lock wait timeout because another transaction holds the table) to a table A has cached
 // from a plain SELECT drops A's cached copy (cacheViewFromFile disposes the cached view before it tries to take the
@@ -428,22 +511,37 @@ var sfuForms = []int{0, 1, 2, 5}
 
 var joinForms = []string{"comma", "cross", "inner", "full", "union", "notin"}
 
-func genCase(t *rapid.T) histCase { return genHist(t, false, false) }
+func genCase(t *rapid.T) histCase { return genHist(t, genOpt{}) }
 
-func genCaseProc(t *rapid.T) histCase { return genHist(t, true, false) }
+func genCaseProc(t *rapid.T) histCase { return genHist(t, genOpt{bproc: true}) }
 
-func genCaseFailedUpdate(t *rapid.T) histCase { return genHist(t, false, true) }
+func genCaseFailedUpdate(t *rapid.T) histCase { return genHist(t, genOpt{aimShape: true}) }
 
-// genHist: aimShape makes "A's update access to a table it has cached read-only while B2 holds it" frequent.
-func genHist(t *rapid.T, bproc, aimShape bool) histCase {
+func genCaseForms(t *rapid.T) histCase { return genHist(t, genOpt{forms: true}) }
+
+func genHist(t *rapid.T, opt genOpt) histCase {
+	bproc, aimShape := opt.bproc, opt.aimShape
 	c := histCase{BProc: bproc}
+	minRows := 0
+	if opt.forms {
+		c.Fmt = formatsAll[fw.Uniform(t, "format", len(formatsAll))]
+		if fw.Pct(t, "big", 10) {
+			c.Pad = fw.Range(t, "pad", 165, 400)
+			c.CPU = fw.Range(t, "cpu", 2, 4)
+		}
+		if headerless(c.Fmt) && c.Pad == 0 {
+			minRows = 1
+		}
+	}
+	// a table of a format without header line must keep a record
+	wouldEmpty := func(rows []mrow) bool { return headerless(c.Fmt) && len(rows) == 0 }
 	nt := 1
 	if fw.Pct(t, "two_tables", 50) {
 		nt = 2
 	}
 	nextID := 1
 	for i := 0; i < nt; i++ {
-		n := fw.Range(t, "nrows", 0, 4)
+		n := fw.Range(t, "nrows", minRows, 4)
 		rows := []rowT{}
 		for k := 0; k < n; k++ {
 			r := rowT{ID: nextID, V: fmt.Sprintf("i%d", nextID)}
@@ -455,7 +553,7 @@ func genHist(t *rapid.T, bproc, aimShape bool) histCase {
 		}
 		c.Tables = append(c.Tables, rows)
 	}
-	m := newModel(c.Tables)
+	m := newModelCase(c)
 	readInTxn := make([]bool, nt)
 	aim := func(label string, rows ...[]mrow) int {
 		var ids []int
@@ -471,6 +569,19 @@ func genHist(t *rapid.T, bproc, aimShape bool) histCase {
 		}
 		return fw.Range(t, label+"_any", 1, 30)
 	}
+	// every statement spells its tables anew: half of them through one of the redundant spellings of the path
+	respell := func(s *stepT) {
+		switch s.K {
+		case "commit", "rollback", "release":
+			return
+		case "b", "hold":
+			s.Form = fw.Uniform(t, "other_form", 3)
+		}
+		if fw.Pct(t, "respell", 50) {
+			s.Form = s.Form%10 + 10*fw.Range(t, "spelling", 1, spellings-1)
+		}
+	}
+	endFollow := -1 // the table whose transaction end was generated on purpose right after a foreign commit
 	nsteps := fw.Range(t, "nsteps", 4, 20)
 	follow := -1 // a table A has read in this transaction and B has just committed to
 	probe := -1  // the second table of a multi-table SELECT FOR UPDATE that has just run
@@ -509,6 +620,14 @@ func genHist(t *rapid.T, bproc, aimShape bool) histCase {
 			// does the second table of the multi-table FOR UPDATE keep other processes out? does A then change the held copy?
 			kind = []string{"b", "b", "dml"}[fw.Uniform(t, "probe_kind", 3)]
 			s.T = probe
+		} else if follow >= 0 && !m.held(follow) && !m.b2Alive() && fw.Pct(t, "follow_end", 12) {
+			// A only read the table, another process committed to it: A ends its transaction, the next read must show the current file
+			kind = []string{"rollback", "rollback", "commit"}[fw.Uniform(t, "follow_end_kind", 3)]
+			endFollow = follow
+		} else if endFollow >= 0 {
+			kind = []string{"sel", "sel", "sfu", "dml"}[fw.Uniform(t, "after_end_kind", 4)]
+			s.T = endFollow
+			endFollow = -1
 		} else if follow >= 0 && fw.Pct(t, "follow", 55) {
 			kind = []string{"sel", "sel", "sel", "sfu", "dml", "msel"}[fw.Uniform(t, "follow_kind", 6)]
 			if kind == "msel" && nt < 2 {
@@ -516,6 +635,14 @@ func genHist(t *rapid.T, bproc, aimShape bool) histCase {
 			}
 			s.T = follow
 			if kind == "msel" && fw.Pct(t, "follow_second", 50) {
+				s.T = 1 - follow
+			}
+			if opt.forms && kind == "sel" && fw.Pct(t, "follow_wrapped", 45) {
+				kind = "wsel"
+			}
+			if opt.forms && nt == 2 && kind == "dml" && fw.Pct(t, "follow_subquery", 50) {
+				// the table B has just committed to is the subquery's table
+				kind = []string{"updsub", "delsub"}[fw.Uniform(t, "follow_sub_kind", 2)]
 				s.T = 1 - follow
 			}
 		} else {
@@ -535,10 +662,20 @@ func genHist(t *rapid.T, bproc, aimShape bool) histCase {
 			if aimShape {
 				whold = 16
 			}
+			if opt.aproc {
+				whold = 0
+			}
 			if m.b2Alive() {
 				whold, wrel = 2, 14
 			}
-			kind = kinds[fw.Weighted(t, "kind", []int{30, 6, 15, wins, 6, 5, wb, wms, wu2, whold, wrel})]
+			wws, wrp, wis, wsub := 0, 0, 0, 0
+			if opt.forms {
+				wws, wrp, wis = 22, 6, 3
+				if nt == 2 {
+					wsub = 5
+				}
+			}
+			kind = kinds[fw.Weighted(t, "kind", []int{30, 6, 15, wins, 6, 5, wb, wms, wu2, whold, wrel, wws, wrp, wis, wsub, wsub})]
 			s.T = fw.Uniform(t, "table", nt)
 			if kind == "b" && nt == 2 && someHeld && !allHeld && fw.Pct(t, "b_free_table", 75) {
 				if m.held(s.T) || m.H2[s.T] != nil {
@@ -580,6 +717,20 @@ func genHist(t *rapid.T, bproc, aimShape bool) histCase {
 		if (kind == "msel" || kind == "upd2" || kind == "insfrom") && (m.nhCached(0) || m.nhCached(1)) {
 			kind = "sel"
 		}
+		// the further forms: the same two restrictions
+		switch kind {
+		case "wsel", "updsub", "delsub":
+			if m.b2Alive() || m.nhCached(0) || (nt == 2 && m.nhCached(1)) {
+				kind = "sel"
+			}
+		case "repl", "insself":
+			if m.b2Alive() || m.nhCached(s.T) {
+				kind = "dml"
+			}
+		}
+		if c.Pad > 0 && kind == "insfrom" {
+			kind = "sel" // keeps the big tables from doubling
+		}
 		if kind == "sel" || kind == "sfu" || kind == "dml" {
 			fu := kind != "sel"
 			if fu && avoidShape && m.blocked(s.T, true) && m.C[s.T] != nil {
@@ -607,6 +758,7 @@ func genHist(t *rapid.T, bproc, aimShape bool) histCase {
 				} else {
 					follow = prevFollow
 				}
+				respell(&s)
 				c.Steps = append(c.Steps, s)
 				continue
 			}
@@ -645,6 +797,9 @@ func genHist(t *rapid.T, bproc, aimShape bool) histCase {
 		case "msel":
 			s.K = "msel"
 			s.J = joinForms[fw.Weighted(t, "join", []int{20, 15, 15, 20, 15, 15})]
+			if c.Pad > 0 && (s.J == "comma" || s.J == "cross") {
+				s.J = "inner" // every combination of two big tables is only big
+			}
 			s.FU = s.J != "notin" && fw.Pct(t, "msel_for_update", 40)
 			if !needsBoth(s.J, m.rowsAfter(s.T, s.FU), m.rowsAfter(1-s.T, s.FU)) {
 				s.J = []string{"full", "union"}[fw.Uniform(t, "join_both", 2)]
@@ -686,12 +841,18 @@ func genHist(t *rapid.T, bproc, aimShape bool) histCase {
 		case "sel":
 			s.K = "sel"
 			s.Form = fw.Uniform(t, "form", 7)
-			m.plainReadNH(s.T, s.Form >= 5)
+			if opt.aproc && s.Form >= 5 {
+				s.Form -= 5
+			}
+			m.plainReadNH(s.T, asksNH(c.Fmt, s.Form))
 			readInTxn[s.T] = true
 		case "sfu":
 			s.K = "sfu"
 			s.Form = sfuForms[fw.Uniform(t, "form", len(sfuForms))]
-			m.updAccessNH(s.T, s.Form == 5)
+			if opt.aproc && s.Form%10 == 5 {
+				s.Form = 0
+			}
+			m.updAccessNH(s.T, asksNH(c.Fmt, s.Form) && s.Form%10 == 5)
 			readInTxn[s.T] = true
 		case "dml":
 			s.K = []string{"ins", "upd", "del"}[fw.Weighted(t, "dml", []int{35, 45, 20})]
@@ -704,8 +865,72 @@ func genHist(t *rapid.T, bproc, aimShape bool) histCase {
 			} else {
 				s.ID = aim("a_id", m.C[s.T].rows)
 			}
+			if s.K == "del" && wouldEmpty(edit(m.C[s.T].rows, s.K, s.ID, "x", s.Null)) {
+				s.K = "upd"
+			}
 			m.C[s.T].rows = edit(m.C[s.T].rows, s.K, s.ID, "x", s.Null)
 			m.C[s.T].dirty = true
+		case "wsel":
+			s.K = "wsel"
+			s.W = wrapForms[fw.Weighted(t, "wrap", []int{20, 15, 15, 15, 15, 20})]
+			s.Form = fw.Uniform(t, "form", 3)
+			s.FU = s.W == "self" && fw.Pct(t, "wsel_for_update", 40)
+			if s.FU {
+				m.updAccess(s.T)
+			} else {
+				m.plainRead(s.T)
+			}
+			readInTxn[s.T] = true
+		case "repl":
+			s.K = "repl"
+			s.Form = fw.Uniform(t, "form", 3)
+			m.updAccess(s.T)
+			if fw.Pct(t, "repl_new", 35) {
+				s.ID = nextID
+				nextID++
+			} else {
+				s.ID = aim("a_id", m.C[s.T].rows)
+			}
+			switch countID(m.C[s.T].rows, s.ID) {
+			case 0:
+				m.C[s.T].rows = edit(m.C[s.T].rows, "ins", s.ID, "x", false)
+			case 1:
+				m.C[s.T].rows = edit(m.C[s.T].rows, "upd", s.ID, "x", false)
+			default:
+				// a key that several records carry: which of them REPLACE addresses belongs to C05
+				s.K = "upd"
+				m.C[s.T].rows = edit(m.C[s.T].rows, "upd", s.ID, "x", false)
+			}
+			m.C[s.T].dirty = true
+		case "insself":
+			m.updAccess(s.T)
+			if len(m.C[s.T].rows) > 500 {
+				s = stepT{K: "sfu", T: s.T}
+				readInTxn[s.T] = true
+				break
+			}
+			s.K = "insself"
+			s.Form = fw.Uniform(t, "form", 3)
+			m.C[s.T].rows = append(clone(m.C[s.T].rows), m.C[s.T].rows...)
+			m.C[s.T].dirty = true
+		case "updsub", "delsub":
+			m.updAccess(s.T)
+			if len(m.C[s.T].rows) == 0 {
+				// the WHERE clause is evaluated for no record: whether the other table counts as loaded is open (see needsBoth)
+				s = stepT{K: "sfu", T: s.T}
+				readInTxn[s.T] = true
+				break
+			}
+			s.K = kind
+			s.Form = fw.Uniform(t, "form", 3)
+			s.Neg = fw.Pct(t, "sub_not_in", 50)
+			other, _ := m.plainRead(1 - s.T)
+			if s.K == "delsub" && wouldEmpty(subsetEdit(m.C[s.T].rows, other, true, s.Neg, "x")) {
+				s.K = "updsub"
+			}
+			m.C[s.T].rows = subsetEdit(m.C[s.T].rows, other, s.K == "delsub", s.Neg, "x")
+			m.C[s.T].dirty = true
+			readInTxn[1-s.T] = true
 		case "insfrom":
 			s.K = "insfrom"
 			s.Src = 1 - s.T
@@ -732,6 +957,9 @@ func genHist(t *rapid.T, bproc, aimShape bool) histCase {
 			case "upd", "del":
 				s.ID = aim("b_id", m.F[s.T])
 			}
+			if s.BK == "del" && wouldEmpty(edit(m.F[s.T], s.BK, s.ID, "y", s.Null)) {
+				s.BK = "upd"
+			}
 			if !m.held(s.T) && m.H2[s.T] == nil {
 				m.F[s.T] = edit(m.F[s.T], s.BK, s.ID, "y", s.Null)
 				if readInTxn[s.T] {
@@ -739,6 +967,10 @@ func genHist(t *rapid.T, bproc, aimShape bool) histCase {
 				}
 			}
 		}
+		if opt.aproc && s.K != "b" && fw.Pct(t, "wrap", 35) {
+			s.Wrap = []string{"if", "while"}[fw.Uniform(t, "wrap_kind", 2)]
+		}
+		respell(&s)
 		c.Steps = append(c.Steps, s)
 	}
 	return c
@@ -757,22 +989,90 @@ const (
 
 func tableName(t int) string { return fmt.Sprintf("t%d", t+1) }
 
-// tableRef spells the table: bare name, file name, absolute path; SELECT only: bare name with an alias,
-// format specified function.
-func tableRef(dir string, t, form int) string {
+// ext is the file extension of the case's table format ("" = csv).
+func ext(fm string) string {
+	if fm == "" {
+		return "csv"
+	}
+	return fm
+}
+
+// headerless: formats whose files carry the column names only inside the records; a table without records has no
+// columns there, so such tables never become empty in a case.
+func headerless(fm string) bool { return fm == "ltsv" || fm == "json" || fm == "jsonl" }
+
+// asksNH: the spelling asks for the import attribute no_header (only varied on CSV files).
+func asksNH(fm string, form int) bool { return fm == "" && form%10 >= 5 }
+
+// A step's Form is <spelling>*10 + <base form>. Base forms: 0 bare name, 1 file name, 2 absolute path; SELECT only:
+// 3 bare name with an alias, 4 format specified function, 5 the same with no_header, 6 bare name under SET @@NO_HEADER.
+// Spellings of the path inside any of them (the same FILE each time, so the same entry of the transaction's cache):
+// 0 as the base form says, 1 ./p, 2 sub/../p, 3 <dir>/p, 4 <dir>//p, 5 <dir>/./p, 6 <dir>/sub/../p, where p carries the
+// extension in the base forms 1, 2, 4, 5 and not in 0, 3, 6 (the case directory holds an empty directory sub).
+const spellings = 7
+
+func pathSpelling(dir, p string, sp int) string {
+	switch sp {
+	case 1:
+		return "./" + p
+	case 2:
+		return "sub/../" + p
+	case 3:
+		return dir + "/" + p
+	case 4:
+		return dir + "//" + p
+	case 5:
+		return dir + "/./" + p
+	case 6:
+		return dir + "/sub/../" + p
+	}
+	return p
+}
+
+// dmlForm: the data-changing statements use the base forms 0-2 (shift picks another one for a second table), keeping the spelling.
+// A second table of the same statement (shift 1) also gets another spelling.
+func dmlForm(form, shift int) int {
+	return (form%10+shift)%3 + (form/10+3*shift)%spellings*10
+}
+
+func tableRef(fm, dir string, t, form int) string {
+	sp := form / 10 % spellings
+	form %= 10
+	file := tableName(t) + "." + ext(fm)
+	if fm != "" && form >= 5 {
+		form -= 2 // 5 -> 3 (alias), 6 -> 4 (format specified function): no_header is a dimension of the CSV cases
+	}
+	name := tableName(t)
+	if sp > 0 {
+		name = "`" + pathSpelling(dir, tableName(t), sp) + "`"
+	}
+	fileRef := "`" + pathSpelling(dir, file, sp) + "`"
 	switch form {
 	case 1:
-		return "`" + tableName(t) + ".csv`"
+		return fileRef
 	case 2:
-		return "`" + filepath.Join(dir, tableName(t)+".csv") + "`"
+		if sp == 0 {
+			return "`" + filepath.Join(dir, file) + "`"
+		}
+		return fileRef
 	case 3:
-		return tableName(t) + " x"
+		return name + " x"
 	case 4:
-		return "CSV(',', `" + tableName(t) + ".csv`)"
+		switch fm {
+		case "tsv":
+			return "CSV('\\t', " + fileRef + ")"
+		case "ltsv":
+			return "LTSV(" + fileRef + ")"
+		case "json":
+			return "JSON('', " + fileRef + ")"
+		case "jsonl":
+			return "JSONL('', " + fileRef + ")"
+		}
+		return "CSV(',', " + fileRef + ")"
 	case 5:
-		return "CSV(',', `" + tableName(t) + ".csv`, 'UTF8', TRUE)" // no_header
+		return "CSV(',', " + fileRef + ", 'UTF8', TRUE)" // no_header
 	}
-	return tableName(t)
+	return name
 }
 
 func render(rows []mrow) string {
@@ -842,29 +1142,61 @@ func changeSQLCols(ref, kind string, id int, tag string, null, nh bool) string {
 // readSQL is A's single-table read; form 6 asks for no_header through the session flag (set back right after).
 // sfuForm: SELECT FOR UPDATE spells the table as name, file name, absolute path or table object with no_header.
 func sfuForm(form int) int {
-	if form == 5 {
-		return 5
+	if form%10 == 5 {
+		return form
 	}
-	return form % 3
+	return dmlForm(form, 0)
 }
 
-func readSQL(dir string, t, form int, forUpdate bool) string {
-	sql := "SELECT * FROM " + tableRef(dir, t, form)
+func readSQL(fm, dir string, t, form int, forUpdate bool) string {
+	sql := "SELECT * FROM " + tableRef(fm, dir, t, form)
 	if forUpdate {
 		sql += " FOR UPDATE"
 	}
 	sql += ";"
-	if form == 6 {
+	if form%10 == 6 && fm == "" {
 		sql = "SET @@NO_HEADER TO TRUE; " + sql + " SET @@NO_HEADER TO FALSE;"
 	}
 	return sql
 }
 
-func fileText(rows []rowT) string {
+func fileText(fm string, rows []rowT) string {
 	var b strings.Builder
-	b.WriteString("id,v\n")
-	for _, r := range rows {
-		fmt.Fprintf(&b, "%d,%s\n", r.ID, r.V)
+	switch fm {
+	case "tsv":
+		b.WriteString("id\tv\n")
+		for _, r := range rows {
+			fmt.Fprintf(&b, "%d\t%s\n", r.ID, r.V)
+		}
+	case "ltsv":
+		for _, r := range rows {
+			fmt.Fprintf(&b, "id:%d\tv:%s\n", r.ID, r.V)
+		}
+	case "json", "jsonl":
+		if fm == "json" {
+			b.WriteString("[")
+		}
+		for i, r := range rows {
+			v := strconv.Quote(r.V)
+			if r.Null || r.V == "" {
+				v = "null"
+			}
+			if fm == "json" && i > 0 {
+				b.WriteString(",")
+			}
+			fmt.Fprintf(&b, "{\"id\":%d,\"v\":%s}", r.ID, v)
+			if fm == "jsonl" {
+				b.WriteString("\n")
+			}
+		}
+		if fm == "json" {
+			b.WriteString("]")
+		}
+	default:
+		b.WriteString("id,v\n")
+		for _, r := range rows {
+			fmt.Fprintf(&b, "%d,%s\n", r.ID, r.V)
+		}
 	}
 	return b.String()
 }
@@ -982,10 +1314,10 @@ func csvqBinary() (string, error) {
 	return binPath, binErr
 }
 
-func readFiles(dir string, n int) []string {
+func readFiles(fm, dir string, n int) []string {
 	out := make([]string, n)
 	for t := 0; t < n; t++ {
-		b, err := os.ReadFile(filepath.Join(dir, tableName(t)+".csv"))
+		b, err := os.ReadFile(filepath.Join(dir, tableName(t)+"."+ext(fm)))
 		if err != nil {
 			out[t] = "<" + err.Error() + ">"
 		} else {
@@ -1017,25 +1349,25 @@ func checkHistLimit(c histCase, procLimit time.Duration) (fw.Outcome, *fw.Violat
 
 	dir := filepath.Join(fw.WorkDir(), fmt.Sprintf("c20-%d", atomic.AddInt64(&caseSeq, 1)))
 	_ = os.RemoveAll(dir)
-	if err := os.MkdirAll(dir, 0755); err != nil {
+	if err := os.MkdirAll(filepath.Join(dir, "sub"), 0755); err != nil { // sub: for the spellings sub/../<table>
 		return o, fw.Harness("mkdir: %v", err)
 	}
 	defer os.RemoveAll(dir)
 	files := map[string]string{}
 	for t, rows := range c.Tables {
-		files[tableName(t)+".csv"] = fileText(rows)
+		files[tableName(t)+"."+ext(c.Fmt)] = fileText(c.Fmt, append(append([]rowT{}, rows...), padRows(t, c.Pad)...))
 	}
 	if err := run.WriteFiles(dir, files); err != nil {
 		return o, fw.Harness("write tables: %v", err)
 	}
 
-	a, err := run.NewSess(run.Opt{Dir: dir})
+	a, err := run.NewSess(run.Opt{Dir: dir, CPU: c.CPU})
 	if err != nil {
 		return o, fw.Harness("session: %v", err)
 	}
 	defer a.Close()
 
-	m := newModel(c.Tables)
+	m := newModelCase(c)
 	var trace []string
 	tail := func() string {
 		tr := trace
@@ -1091,7 +1423,7 @@ func checkHistLimit(c histCase, procLimit time.Duration) (fw.Outcome, *fw.Violat
 	}
 	// after a statement that sets @@NO_HEADER for one read the flag is put back even when the read failed
 	resetFlag := func(form int) {
-		if form == 6 {
+		if form%10 == 6 {
 			_ = a.Exec("SET @@NO_HEADER TO FALSE;")
 		}
 	}
@@ -1107,11 +1439,30 @@ func checkHistLimit(c histCase, procLimit time.Duration) (fw.Outcome, *fw.Violat
 		"Rx": "reloaded by the first update access after a plain SELECT: the current file",
 	}
 
+	// a table of a format without header line must keep a record (an empty file has no columns)
+	emptyHL := func(rows []mrow) bool { return headerless(c.Fmt) && len(rows) == 0 }
+	for t := 0; t < nt; t++ {
+		if emptyHL(m.F[t]) {
+			o.Discard = true
+			return o, nil
+		}
+	}
+	if c.Fmt != "" {
+		class("format=" + c.Fmt)
+	}
+	if c.Pad > 0 {
+		class(fmt.Sprintf("big_tables:cpu=%d", c.CPU))
+	}
+	lastSp := make([]int, nt) // the spelling of A's last access to the table
+	for t := range lastSp {
+		lastSp[t] = -1
+	}
 	nontrivial := false
 	readInTxn := make([]bool, nt)  // A has read the table in its current transaction
 	bSinceRead := make([]bool, nt) // ... and a B commit to it succeeded afterwards
 	prevSet := make([]bool, nt)    // A had the table cached in an earlier transaction and has not accessed it since
 	prev := make([][]mrow, nt)     // ... that cached copy
+	prevRO := make([]bool, nt)     // ... which A had only read (never held for update), and the transaction ended by ROLLBACK
 	bUnloaded := make([]bool, nt)  // B committed to the table while A had it not loaded (but another one loaded)
 	failedUpd := make([]bool, nt)  // an update access of A to its read-only cached copy timed out in this transaction
 	noteRead := func(t int) {
@@ -1122,16 +1473,16 @@ func checkHistLimit(c histCase, procLimit time.Duration) (fw.Outcome, *fw.Violat
 		readInTxn[t], bSinceRead[t] = true, false
 	}
 	// classes of the attribute dimension: how a table loaded with no_header is accessed afterwards
-	attrClass := func(what string, t int, asksNH bool, rule string) {
+	attrClass := func(what string, t int, asks bool, rule string) {
 		nh := m.C[t] != nil && m.C[t].nh
 		switch {
 		case nh && (rule == "L" || rule == "U"):
 			class("attr:loaded_with_no_header:" + what)
 		case nh && (rule == "R" || rule == "Rx"):
 			class("attr:no_header_table_reloaded_by_first_update_access:" + rule)
-		case nh && !asksNH:
+		case nh && !asks:
 			class("attr:no_header_table_accessed_with_default_attributes:" + what)
-		case !nh && asksNH:
+		case !nh && asks:
 			class("attr:header_table_accessed_with_no_header_ignored")
 		}
 	}
@@ -1190,7 +1541,31 @@ func checkHistLimit(c histCase, procLimit time.Duration) (fw.Outcome, *fw.Violat
 		tn := strconv.Itoa(s.T + 1)
 		atag, btag := fmt.Sprintf("a%d", i), fmt.Sprintf("b%d", i)
 		foreign = m.anyForeign(s)
-		if (s.K == "msel" || s.K == "upd2" || s.K == "insfrom") && (m.nhCached(0) || (nt == 2 && m.nhCached(1))) {
+		if sp := s.Form / 10 % spellings; sp > 0 && s.K != "commit" && s.K != "rollback" && s.K != "release" {
+			who := "A"
+			if s.K == "b" || s.K == "hold" {
+				who = "B"
+			}
+			class(who + ".spelling:" + []string{"", "./p", "sub/../p", "<dir>/p", "<dir>//p", "<dir>/./p", "<dir>/sub/../p"}[sp])
+			// the same table under two different spellings within one transaction of A
+			if who == "A" {
+				for _, a := range accesses(s) {
+					if a.t >= 0 && a.t < nt {
+						if lastSp[a.t] >= 0 && lastSp[a.t] != sp && m.C[a.t] != nil {
+							class("A.cached_table_reached_by_another_spelling")
+						}
+					}
+				}
+			}
+		}
+		if s.K != "b" && s.K != "hold" && s.K != "release" {
+			for _, a := range accesses(s) {
+				if a.t >= 0 && a.t < nt {
+					lastSp[a.t] = s.Form / 10 % spellings
+				}
+			}
+		}
+		if (s.K == "msel" || s.K == "upd2" || s.K == "insfrom" || s.K == "wsel" || s.K == "repl" || s.K == "insself" || s.K == "updsub" || s.K == "delsub") && (m.nhCached(0) || (nt == 2 && m.nhCached(1))) {
 			// a table loaded with no_header has other column names: not a shape of the two-table statements
 			o.Discard = true
 			return o, nil
@@ -1200,11 +1575,11 @@ func checkHistLimit(c histCase, procLimit time.Duration) (fw.Outcome, *fw.Violat
 			var stmt string
 			switch s.K {
 			case "sel":
-				stmt = readSQL(dir, s.T, s.Form, false)
+				stmt = readSQL(c.Fmt, dir, s.T, s.Form, false)
 			case "sfu":
-				stmt = readSQL(dir, s.T, sfuForm(s.Form), true)
+				stmt = readSQL(c.Fmt, dir, s.T, sfuForm(s.Form), true)
 			case "ins", "upd", "del":
-				stmt = changeSQLCols(tableRef(dir, s.T, s.Form%3), s.K, s.ID, atag, s.Null, m.nhCached(s.T))
+				stmt = changeSQLCols(tableRef(c.Fmt, dir, s.T, dmlForm(s.Form, 0)), s.K, s.ID, atag, s.Null, m.nhCached(s.T))
 			default:
 				// a multi-table statement that gets one table and fails on the other: effect on the first not determined
 				o.Discard = true
@@ -1249,17 +1624,20 @@ func checkHistLimit(c histCase, procLimit time.Duration) (fw.Outcome, *fw.Violat
 		}
 		switch s.K {
 		case "sel":
-			stmt := readSQL(dir, s.T, s.Form, false)
-			want, rule := m.plainReadNH(s.T, s.Form >= 5)
+			stmt := readSQL(c.Fmt, dir, s.T, s.Form, false)
+			want, rule := m.plainReadNH(s.T, asksNH(c.Fmt, s.Form))
 			r := execA(stmt)
 			resetFlag(s.Form)
 			if v := compare(s.T, r, want, rule, stmt); v != nil {
 				return o, v
 			}
 			class("A.select:" + rule)
-			attrClass("select", s.T, s.Form >= 5, rule)
+			attrClass("select", s.T, asksNH(c.Fmt, s.Form), rule)
 			if rule == "L" && prevSet[s.T] && !sameRows(prev[s.T], want) {
 				class("A.select:after_end_sees_current_file_not_old_cache")
+				if prevRO[s.T] {
+					class("A.select:after_rollback_of_only_read_table_sees_current_file")
+				}
 			}
 			if rule == "L" && bUnloaded[s.T] {
 				class("two_table:B_commit_to_unloaded_table_then_A_reads_it")
@@ -1269,8 +1647,8 @@ func checkHistLimit(c histCase, procLimit time.Duration) (fw.Outcome, *fw.Violat
 			tok("s" + rule + tn)
 
 		case "sfu":
-			stmt := readSQL(dir, s.T, sfuForm(s.Form), true)
-			rule := m.updAccessNH(s.T, s.Form == 5)
+			stmt := readSQL(c.Fmt, dir, s.T, sfuForm(s.Form), true)
+			rule := m.updAccessNH(s.T, asksNH(c.Fmt, s.Form) && s.Form%10 == 5)
 			if rule == "H" && m.C[s.T].dirty {
 				rule = "Hd"
 			}
@@ -1280,7 +1658,7 @@ func checkHistLimit(c histCase, procLimit time.Duration) (fw.Outcome, *fw.Violat
 				return o, v
 			}
 			class("A.select_for_update:" + rule)
-			attrClass("select_for_update", s.T, s.Form == 5, rule)
+			attrClass("select_for_update", s.T, asksNH(c.Fmt, s.Form) && s.Form%10 == 5, rule)
 			failedUpd[s.T] = false
 			if rule == "U" && prevSet[s.T] && !sameRows(prev[s.T], want) {
 				class("A.select_for_update:after_end_sees_current_file_not_old_cache")
@@ -1295,22 +1673,9 @@ func checkHistLimit(c histCase, procLimit time.Duration) (fw.Outcome, *fw.Violat
 				return o, nil
 			}
 			l, r := s.T, 1-s.T
-			lref, rref := tableRef(dir, l, s.Form%3), tableRef(dir, r, (s.Form+1)%3)
-			var stmt string
-			switch s.J {
-			case "comma":
-				stmt = fmt.Sprintf("SELECT a.id, a.v, b.id, b.v FROM %s a, %s b", lref, rref)
-			case "cross":
-				stmt = fmt.Sprintf("SELECT a.id, a.v, b.id, b.v FROM %s a CROSS JOIN %s b", lref, rref)
-			case "inner":
-				stmt = fmt.Sprintf("SELECT a.id, a.v, b.id, b.v FROM %s a JOIN %s b ON a.id = b.id", lref, rref)
-			case "full":
-				stmt = fmt.Sprintf("SELECT a.id, a.v, b.id, b.v FROM %s a FULL OUTER JOIN %s b ON a.id = b.id", lref, rref)
-			case "union":
-				stmt = fmt.Sprintf("SELECT id, v FROM %s UNION ALL SELECT id, v FROM %s", lref, rref)
-			case "notin":
-				stmt = fmt.Sprintf("SELECT id, v FROM %s WHERE id NOT IN (SELECT id FROM %s)", lref, rref)
-			default:
+			lref, rref := tableRef(c.Fmt, dir, l, dmlForm(s.Form, 0)), tableRef(c.Fmt, dir, r, dmlForm(s.Form, 1))
+			stmt := mselSQL(s.J, lref, rref)
+			if stmt == "" {
 				o.Discard = true
 				return o, nil
 			}
@@ -1392,7 +1757,7 @@ func checkHistLimit(c histCase, procLimit time.Duration) (fw.Outcome, *fw.Violat
 				o.Discard = true
 				return o, nil
 			}
-			stmt := fmt.Sprintf("UPDATE a, b SET a.v = '%s', b.v = '%s' FROM %s a, %s b WHERE a.id = %d AND b.id = %d;", atag, atag, tableRef(dir, l, s.Form%3), tableRef(dir, r, (s.Form+1)%3), s.ID, s.ID2)
+			stmt := fmt.Sprintf("UPDATE a, b SET a.v = '%s', b.v = '%s' FROM %s a, %s b WHERE a.id = %d AND b.id = %d;", atag, atag, tableRef(c.Fmt, dir, l, dmlForm(s.Form, 0)), tableRef(c.Fmt, dir, r, dmlForm(s.Form, 1)), s.ID, s.ID2)
 			res := execA(stmt)
 			if res.Err != nil {
 				return o, fw.V("a_change_error", "%s failed in transaction A (no other process holds anything): %s %v%s", stmt, run.ErrClass(res.Err), res.Err, tail())
@@ -1409,9 +1774,213 @@ func checkHistLimit(c histCase, procLimit time.Duration) (fw.Outcome, *fw.Violat
 			}
 			tok("u" + rl + rr + tn)
 
+		case "wsel":
+			if s.FU && s.W != "self" {
+				o.Discard = true
+				return o, nil
+			}
+			ref, ref2 := tableRef(c.Fmt, dir, s.T, dmlForm(s.Form, 0)), tableRef(c.Fmt, dir, s.T, dmlForm(s.Form, 1))
+			const agg = "LISTAGG(id || '=' || COALESCE(v, '~'), ';')"
+			var stmt string
+			switch s.W {
+			case "subq":
+				stmt = "SELECT id, v FROM (SELECT * FROM " + ref + ") s;"
+			case "cte":
+				stmt = "WITH c AS (SELECT id, v FROM " + ref + ") SELECT id, v FROM c;"
+			case "tview":
+				stmt = fmt.Sprintf("DECLARE tv%d VIEW AS SELECT id, v FROM %s; SELECT id, v FROM tv%d;", i, ref, i)
+			case "agg":
+				stmt = "SELECT " + agg + " AS r FROM " + ref + ";"
+			case "udf":
+				stmt = fmt.Sprintf("DECLARE fn%d FUNCTION () AS BEGIN RETURN (SELECT %s FROM %s); END; SELECT fn%d() AS r;", i, agg, ref, i)
+			case "self":
+				stmt = "SELECT a.id, a.v FROM " + ref + " a JOIN " + ref2 + " b ON a.id = b.id"
+				if s.FU {
+					stmt += " FOR UPDATE"
+				}
+				stmt += ";"
+			default:
+				o.Discard = true
+				return o, nil
+			}
+			var rule string
+			var rows []mrow
+			if s.FU {
+				rule = m.updAccess(s.T)
+				if rule == "H" && m.C[s.T].dirty {
+					rule = "Hd"
+				}
+				rows = m.C[s.T].rows
+			} else {
+				rows, rule = m.plainRead(s.T)
+			}
+			// expected rows as strings; the aggregate and the join are compared as multisets
+			var want []string
+			ordered := true
+			switch s.W {
+			case "self":
+				for _, x := range rows {
+					for _, y := range rows {
+						if idOf(x) == idOf(y) {
+							want = append(want, key(x.id, cellKey(x)))
+						}
+					}
+				}
+				ordered = false
+			default:
+				for _, x := range rows {
+					want = append(want, key(x.id, cellKey(x)))
+				}
+				ordered = s.W != "agg" && s.W != "udf"
+			}
+			res := execA(stmt)
+			if res.Err != nil {
+				return o, fw.V("a_read_error", "%s failed in transaction A: %s %v%s", stmt, run.ErrClass(res.Err), res.Err, tail())
+			}
+			if len(res.Views) != 1 {
+				return o, fw.V("a_read_shape", "%s returned %d results%s", stmt, len(res.Views), tail())
+			}
+			var got []string
+			if s.W == "agg" || s.W == "udf" {
+				vw := res.Views[0]
+				if len(vw.Rows) != 1 || len(vw.Rows[0]) != 1 {
+					return o, fw.V("a_read_shape", "%s returned an unexpected shape: %s%s", stmt, vw.String(), tail())
+				}
+				if cell := vw.Rows[0][0]; !cell.IsNull() && cell.S != "" {
+					for _, part := range strings.Split(cell.S, ";") {
+						kv := strings.SplitN(part, "=", 2)
+						if len(kv) != 2 {
+							return o, fw.V("a_read_shape", "%s returned an unexpected list: %q%s", stmt, cell.S, tail())
+						}
+						if kv[1] == "~" {
+							kv[1] = nullKey
+						}
+						got = append(got, key(kv[0], kv[1]))
+					}
+				}
+			} else {
+				for _, rw := range res.Views[0].Rows {
+					cells := make([]string, len(rw))
+					for k, cv := range rw {
+						cells[k] = cv.S
+						if cv.IsNull() {
+							cells[k] = nullKey
+						}
+					}
+					got = append(got, key(cells...))
+				}
+			}
+			if !ordered {
+				sort.Strings(got)
+				sort.Strings(want)
+			}
+			if strings.Join(got, "\n") != strings.Join(want, "\n") {
+				return o, fw.V("wrapped_read:"+s.W+":"+rule, "%s in transaction A returned %s; expected %s from %s = %s (%s); file now %s%s",
+					stmt, showKeys(got), showKeys(want), tableName(s.T), render(rows), ruleText[rule], render(m.F[s.T]), tail())
+			}
+			mode := "plain"
+			if s.FU {
+				mode = "for_update"
+			}
+			class("A.wrapped_select:" + s.W + ":" + mode)
+			class("A.wrapped_select:" + mode + ":" + rule)
+			if s.FU {
+				failedUpd[s.T] = false
+			}
+			prevSet[s.T], bUnloaded[s.T] = false, false
+			noteRead(s.T)
+			tok("w" + s.W[:2] + rule + tn)
+
+		case "repl":
+			rule := m.updAccess(s.T)
+			n := countID(m.C[s.T].rows, s.ID)
+			if n > 1 {
+				// a key that several records carry: which of them REPLACE addresses belongs to C05
+				o.Discard = true
+				return o, nil
+			}
+			stmt := fmt.Sprintf("REPLACE INTO %s (id, v) USING (id) VALUES (%d, '%s');", tableRef(c.Fmt, dir, s.T, dmlForm(s.Form, 0)), s.ID, atag)
+			r := execA(stmt)
+			if r.Err != nil {
+				return o, fw.V("a_change_error", "%s failed in transaction A (no other process holds anything): %s %v%s", stmt, run.ErrClass(r.Err), r.Err, tail())
+			}
+			cch := m.C[s.T]
+			if n == 1 {
+				cch.rows = edit(cch.rows, "upd", s.ID, atag, false)
+				class("A.replace:matched:" + rule)
+			} else {
+				cch.rows = edit(cch.rows, "ins", s.ID, atag, false)
+				class("A.replace:unmatched:" + rule)
+			}
+			cch.dirty = true
+			failedUpd[s.T] = false
+			prevSet[s.T], bUnloaded[s.T] = false, false
+			tok("p" + rule + tn)
+
+		case "insself":
+			rule := m.updAccess(s.T)
+			stmt := fmt.Sprintf("INSERT INTO %s (id, v) SELECT id, v FROM %s;", tableRef(c.Fmt, dir, s.T, dmlForm(s.Form, 0)), tableName(s.T))
+			r := execA(stmt)
+			if r.Err != nil {
+				return o, fw.V("a_change_error", "%s failed in transaction A (no other process holds anything): %s %v%s", stmt, run.ErrClass(r.Err), r.Err, tail())
+			}
+			cch := m.C[s.T]
+			cch.rows = append(clone(cch.rows), cch.rows...)
+			cch.dirty = true
+			class("A.insert_select_from_target:" + rule)
+			failedUpd[s.T] = false
+			prevSet[s.T], bUnloaded[s.T] = false, false
+			tok("q" + rule + tn)
+
+		case "updsub", "delsub":
+			if nt != 2 {
+				o.Discard = true
+				return o, nil
+			}
+			other := 1 - s.T
+			rule := m.updAccess(s.T)
+			if len(m.C[s.T].rows) == 0 {
+				// the WHERE clause is evaluated for no record: whether the other table counts as loaded is open
+				o.Discard = true
+				return o, nil
+			}
+			src, srule := m.plainRead(other)
+			next := subsetEdit(m.C[s.T].rows, src, s.K == "delsub", s.Neg, atag)
+			if emptyHL(next) {
+				o.Discard = true
+				return o, nil
+			}
+			op := "IN"
+			if s.Neg {
+				op = "NOT IN"
+			}
+			var stmt string
+			if s.K == "updsub" {
+				stmt = fmt.Sprintf("UPDATE %s SET v = '%s' WHERE id %s (SELECT id FROM %s);", tableRef(c.Fmt, dir, s.T, dmlForm(s.Form, 0)), atag, op, tableRef(c.Fmt, dir, other, dmlForm(s.Form, 1)))
+			} else {
+				stmt = fmt.Sprintf("DELETE FROM %s WHERE id %s (SELECT id FROM %s);", tableRef(c.Fmt, dir, s.T, dmlForm(s.Form, 0)), op, tableRef(c.Fmt, dir, other, dmlForm(s.Form, 1)))
+			}
+			r := execA(stmt)
+			if r.Err != nil {
+				return o, fw.V("a_change_error", "%s failed in transaction A (no other process holds anything): %s %v%s", stmt, run.ErrClass(r.Err), r.Err, tail())
+			}
+			m.C[s.T].rows = next
+			m.C[s.T].dirty = true
+			class("A." + s.K + ":" + rule)
+			class("A." + s.K + ":subquery_table:" + srule)
+			failedUpd[s.T] = false
+			for _, tb := range []int{s.T, other} {
+				prevSet[tb], bUnloaded[tb] = false, false
+			}
+			tok("y" + s.K[:1] + rule + srule + tn)
+
 		case "ins", "upd", "del":
 			rule := m.updAccess(s.T)
-			stmt := changeSQLCols(tableRef(dir, s.T, s.Form%3), s.K, s.ID, atag, s.Null, m.C[s.T].nh)
+			if s.K == "del" && emptyHL(edit(m.C[s.T].rows, s.K, s.ID, atag, s.Null)) {
+				o.Discard = true
+				return o, nil
+			}
+			stmt := changeSQLCols(tableRef(c.Fmt, dir, s.T, dmlForm(s.Form, 0)), s.K, s.ID, atag, s.Null, m.C[s.T].nh)
 			r := execA(stmt)
 			if r.Err != nil && m.C[s.T].nh && rule != "U" {
 				return o, fw.V("table_shape_changed_in_transaction", "%s failed in transaction A: %s %v; the table was first loaded in this transaction with no_header (columns c1, c2) and its shape must not change (%s)%s", stmt, run.ErrClass(r.Err), r.Err, ruleText[rule], tail())
@@ -1429,7 +1998,7 @@ func checkHistLimit(c histCase, procLimit time.Duration) (fw.Outcome, *fw.Violat
 			tok("d" + rule + tn)
 
 		case "insfrom":
-			stmt := fmt.Sprintf("INSERT INTO %s (id, v) SELECT id, v FROM %s;", tableRef(dir, s.T, s.Form%3), tableName(s.Src))
+			stmt := fmt.Sprintf("INSERT INTO %s (id, v) SELECT id, v FROM %s;", tableRef(c.Fmt, dir, s.T, dmlForm(s.Form, 0)), tableName(s.Src))
 			rule := m.updAccess(s.T)
 			src, srule := m.plainRead(s.Src)
 			r := execA(stmt)
@@ -1449,11 +2018,12 @@ func checkHistLimit(c histCase, procLimit time.Duration) (fw.Outcome, *fw.Violat
 			for t := 0; t < nt; t++ {
 				if m.C[t] != nil {
 					prevSet[t], prev[t] = true, clone(m.C[t].rows)
+					prevRO[t] = s.K == "rollback" && !m.C[t].fu
 				}
 				readInTxn[t], bSinceRead[t], bUnloaded[t], failedUpd[t] = false, false, false, false
 			}
 			foreign = false
-			before := readFiles(dir, nt)
+			before := readFiles(c.Fmt, dir, nt)
 			var flag bool
 			if s.K == "commit" {
 				flag = m.commit()
@@ -1465,7 +2035,7 @@ func checkHistLimit(c histCase, procLimit time.Duration) (fw.Outcome, *fw.Violat
 				return o, fw.V("a_"+s.K+"_error", "%s failed in transaction A: %s %v%s", strings.ToUpper(s.K), run.ErrClass(r.Err), r.Err, tail())
 			}
 			if s.K == "rollback" {
-				if after := readFiles(dir, nt); strings.Join(after, "\x00") != strings.Join(before, "\x00") {
+				if after := readFiles(c.Fmt, dir, nt); strings.Join(after, "\x00") != strings.Join(before, "\x00") {
 					return o, fw.V("rollback_changed_file", "ROLLBACK changed a file: %q -> %q%s", before, after, tail())
 				}
 			}
@@ -1485,9 +2055,13 @@ func checkHistLimit(c histCase, procLimit time.Duration) (fw.Outcome, *fw.Violat
 			}
 
 		case "b":
-			sql := changeSQL(tableName(s.T), s.BK, s.ID, btag, s.Null) + " COMMIT;"
-			before := readFiles(dir, nt)
+			sql := changeSQL(tableRef(c.Fmt, dir, s.T, dmlForm(s.Form, 0)), s.BK, s.ID, btag, s.Null) + " COMMIT;"
+			before := readFiles(c.Fmt, dir, nt)
 			mustFail := m.held(s.T) || m.H2[s.T] != nil
+			if !mustFail && emptyHL(edit(m.F[s.T], s.BK, s.ID, btag, s.Null)) {
+				o.Discard = true
+				return o, nil
+			}
 			holder := "transaction A holds"
 			if m.H2[s.T] != nil {
 				holder = "another transaction holds"
@@ -1522,7 +2096,7 @@ func checkHistLimit(c histCase, procLimit time.Duration) (fw.Outcome, *fw.Violat
 			if out.hang {
 				return o, fw.V("b_process_hang", "process B did not end within %v%s", procLimit, tail())
 			}
-			after := readFiles(dir, nt)
+			after := readFiles(c.Fmt, dir, nt)
 			if mustFail {
 				fw.AddExtra("b_lock_timeouts", 1)
 				if out.class == "" {
@@ -1562,9 +2136,9 @@ func checkHistLimit(c histCase, procLimit time.Duration) (fw.Outcome, *fw.Violat
 			var sql string
 			switch s.BK {
 			case "sfu":
-				sql = fmt.Sprintf("SELECT id, v FROM %s FOR UPDATE;", tableName(s.T))
+				sql = fmt.Sprintf("SELECT id, v FROM %s FOR UPDATE;", tableRef(c.Fmt, dir, s.T, dmlForm(s.Form, 0)))
 			case "upd", "ins":
-				sql = changeSQL(tableName(s.T), s.BK, s.ID, htag, false)
+				sql = changeSQL(tableRef(c.Fmt, dir, s.T, dmlForm(s.Form, 0)), s.BK, s.ID, htag, false)
 			default:
 				o.Discard = true
 				return o, nil
@@ -1693,7 +2267,7 @@ func checkHistLimit(c histCase, procLimit time.Duration) (fw.Outcome, *fw.Violat
 		stmt := fmt.Sprintf("SELECT id, v FROM %s;", tableName(t))
 		tb, err := fin.Query(stmt)
 		if err != nil {
-			return o, fw.V("final_read_error", "after the history %s fails in a new process: %v (file %q)%s", stmt, err, readFiles(dir, nt)[t], tail())
+			return o, fw.V("final_read_error", "after the history %s fails in a new process: %v (file %q)%s", stmt, err, readFiles(c.Fmt, dir, nt)[t], tail())
 		}
 		rows, ok := observed(tb)
 		if !ok || !sameRows(rows, m.F[t]) {
@@ -1706,7 +2280,7 @@ func checkHistLimit(c histCase, procLimit time.Duration) (fw.Outcome, *fw.Violat
 	return o, nil
 }
 
-const ruleDoc = "1-2 CSV tables (id, v; 0-4 rows, NULL cells) and a history of 4-20 steps generated up front: transaction A (one in-process session for the whole history) does SELECT (table spelled as name / file name / absolute path / aliased / CSV() table function; also with the import attribute no_header, through CSV(',', file, 'UTF8', TRUE) or SET @@NO_HEADER around the statement), SELECT FOR UPDATE, two-table reads (comma list, CROSS / inner / FULL OUTER JOIN, UNION ALL, NOT IN subquery over the other table; the join and set forms also FOR UPDATE, which holds every table of the query), INSERT, UPDATE, DELETE, UPDATE a, b .. FROM over both tables, INSERT..SELECT from the other table, COMMIT, ROLLBACK; between A's statements other processes B (each a fresh Session+Transaction+Processor on the same directory, 50 ms lock wait) UPDATE/INSERT/DELETE one table, COMMIT through the real file layer and end. Model per table: file contents F and A's cache (none | snapshot, for-update flag, own changes): plain SELECT loads F if nothing is cached, else returns the cache; the first data-changing / FOR UPDATE access to a copy loaded by a plain SELECT reloads F (the documented exception) and holds the table; later reads = snapshot + own changes; COMMIT writes changed tables and empties the cache, ROLLBACK empties it. A table keeps the import attributes of its first load in the transaction (loaded with no_header: columns c1, c2, the header line is the first record, also after the reload by the first update access and whatever attributes later statements ask for; written back without a header line at COMMIT). Every A read (SELECT *: column names and rows) is compared with the model as a sequence of rows (text + NULL-ness; two-table joins and unions as a multiset); B must commit iff A does not hold the table for update, else fail with the lock-timeout error 90082 leaving the files byte-identical; at the end the files (read by a new session) equal F. Non-trivial = a successful B commit between two A reads of the same table inside one A transaction; distinct by the compressed sequence of (step kind, model rule, table)"
+const ruleDoc = "1-2 CSV tables (id, v; 0-4 rows, NULL cells) and a history of 4-20 steps generated up front: transaction A (one in-process session for the whole history) does SELECT (table spelled as name / file name / absolute path / aliased / CSV() table function; also with the import attribute no_header, through CSV(',', file, 'UTF8', TRUE) or SET @@NO_HEADER around the statement; every statement of A and of the other processes draws its spelling anew, half of them through a redundant spelling of the path - ./p, sub/../p, <dir>/p, <dir>//p, <dir>/./p, <dir>/sub/../p, with or without the extension, two tables of one statement through different spellings - while the model is keyed by the file), SELECT FOR UPDATE, two-table reads (comma list, CROSS / inner / FULL OUTER JOIN, UNION ALL, NOT IN subquery over the other table; the join and set forms also FOR UPDATE, which holds every table of the query), INSERT, UPDATE, DELETE, UPDATE a, b .. FROM over both tables, INSERT..SELECT from the other table, COMMIT, ROLLBACK; between A's statements other processes B (each a fresh Session+Transaction+Processor on the same directory, 50 ms lock wait) UPDATE/INSERT/DELETE one table, COMMIT through the real file layer and end. Model per table: file contents F and A's cache (none | snapshot, for-update flag, own changes): plain SELECT loads F if nothing is cached, else returns the cache; the first data-changing / FOR UPDATE access to a copy loaded by a plain SELECT reloads F (the documented exception) and holds the table; later reads = snapshot + own changes; COMMIT writes changed tables and empties the cache, ROLLBACK empties it - also for tables the transaction had only read: after a foreign commit to a table A has read, A ends its transaction (ROLLBACK twice as often as COMMIT) in an eighth of the cases and reads the table next, which must show the current file (class after_rollback_of_only_read_table_sees_current_file). A table keeps the import attributes of its first load in the transaction (loaded with no_header: columns c1, c2, the header line is the first record, also after the reload by the first update access and whatever attributes later statements ask for; written back without a header line at COMMIT). Every A read (SELECT *: column names and rows) is compared with the model as a sequence of rows (text + NULL-ness; two-table joins and unions as a multiset); B must commit iff A does not hold the table for update, else fail with the lock-timeout error 90082 leaving the files byte-identical; at the end the files (read by a new session) equal F. Non-trivial = a successful B commit between two A reads of the same table inside one A transaction; distinct by the compressed sequence of (step kind, model rule, table)"
 
 var assumptions = []string{
 	"other processes act between A's statements (statement-level interleaving); interleavings inside one statement's file-system steps belong to C09",
@@ -1718,6 +2292,7 @@ var assumptions = []string{
 	"import attributes: only no_header is varied (table object argument and session flag); the other attributes (delimiter, encoding, without_null, JSON query, fixed-width positions) go through the same FileInfo that the reload reuses. Two-table statements are not generated on tables loaded with no_header (other column names)",
 	"fixed-width files whose delimiter positions were auto-detected at the first load and which another process rewrites with other widths before the reload: the manual only says that the attributes determined when loading are used afterwards, so no expectation is asserted (not generated)",
 	"INSERT appends, UPDATE/DELETE keep the order of the remaining rows (C05's subject) - used only to predict the table after a change",
+	"all spellings of a path name the same file (the case directory holds an empty directory sub for sub/..); spellings that differ in the letter case of the name are the subject of check table_names",
 }
 
 func TestC20History(t *testing.T) {
@@ -1742,5 +2317,21 @@ func TestC20FailedUpdateAccess(t *testing.T) {
 		Gen: genCaseFailedUpdate, Check: checkHist,
 		Rule:        "the same histories aimed at one shape: A has a table cached from a plain SELECT, a long-lived other transaction B2 holds it for update (SELECT FOR UPDATE / UPDATE / INSERT, later COMMIT or ROLLBACK), A's data-changing or FOR UPDATE access to it fails with the lock wait timeout; afterwards A's plain reads must still return A's snapshot (while B2 holds the table and after B2 committed)",
 		Assumptions: assumptions,
+	})
+}
+
+const formsRule = "the same histories and model with (a) further statement forms of transaction A: single-table reads that reach the table through a FROM-subquery, a common table expression, DECLARE .. VIEW AS SELECT, an aggregate (LISTAGG over all rows), a user-defined function whose body reads the table, a self join of two spellings of the table (also FOR UPDATE); REPLACE .. USING (id); INSERT .. SELECT from the target table itself; UPDATE / DELETE .. WHERE id [NOT] IN (SELECT id FROM the other table) (the target is held for update, the subquery's table is a plain read); (b) the tables as CSV, TSV, LTSV, JSON or JSON Lines files (spelled as name / file name / absolute path / aliased / CSV(), LTSV(), JSON(), JSONL() table functions); (c) in a tenth of the cases 165-400 further rows per table and @@CPU 2-4 for A, so that loading, copying out of the cache and the DML statements run on several goroutines. Wrapped reads are compared as a sequence (subquery, CTE, view), as a multiset (aggregate, function, join). Non-trivial and distinct as in history"
+
+var formsAssumptions = append(append([]string{}, assumptions...),
+	"tables of the formats without a header line (LTSV, JSON, JSON Lines) never become empty: an empty file has no columns there; DELETEs that would remove the last record are generated as UPDATEs (replayed cases that do it are discarded)",
+	"REPLACE addresses a key that at most one record carries (several: C05's subject); the wrapped reads and the subquery forms keep away from tables loaded with no_header and from the time another transaction holds a table",
+	"UPDATE / DELETE with a subquery in WHERE on an empty target evaluate the subquery for no record: not generated (whether the subquery's table counts as loaded is not documented)",
+	"big tables: comma / CROSS joins and INSERT..SELECT from the other table are left out (only the size grows)",
+)
+
+func TestC20HistoryForms(t *testing.T) {
+	fw.Run(t, fw.Spec[histCase]{
+		ID: "C20", Name: "history_forms", Quick: 1200, Thorough: 24000,
+		Gen: genCaseForms, Check: checkHist, Rule: formsRule, Assumptions: formsAssumptions,
 	})
 }
